@@ -690,6 +690,8 @@ def c03():
     res.append(("top-clusters", core.campaign("top-clusters", top, wd)))
     af = [gen.append_fault_program(rng, "append-fault-%d" % i, gen.K(["K1b", "K2", "K5", "K3"][i % 4]), CS[["K1b", "K2", "K5", "K3"][i % 4]]) for i in range(scale(24, 240))]
     res.append(("append-fault", core.campaign("append-fault", af, wd)))
+    cf = [gen.clone_flush_program(rng, "clone-flush-%d" % i, gen.K(["K1b", "K2", "K5"][i % 3]), CS[["K1b", "K2", "K5"][i % 3]]) for i in range(scale(18, 180))]
+    res.append(("clone-flush", core.campaign("clone-flush", cf, wd)))
     mc = mc_layer_b(wd, deep=True)
     mc["TableOrder"] = mc_table_order(wd)
     mc["states"] += mc["TableOrder"]["states"]
@@ -953,6 +955,10 @@ def c14():
     for kname in ["K1", "K1b", "K3"]:
         for i in range(half(4, 40)):
             progs.append(gen.crash_reuse_program(rng, "crash-reuse-%s-%d" % (kname, i), gen.K(kname), CS[kname]))
+    # one crash program in four runs on a storage that transfers fewer bytes than asked (legal for Write: every piece must be handed over)
+    for j, p in enumerate(progs):
+        if j % 4 == 1 and "short" not in p["cfg"]:
+            p["cfg"] = dict(p["cfg"], short=rng.randrange(1, 1 << 30))
     res = [("crash", core.campaign("crash", progs, wd))]
     # the same kind of histories with the device handed to the library as a std::io object behind StdIoWrapper (what most users do)
     std = [gen.crash_program(rng, "crash-std-%s-%d" % (k, i), gen.K(k), CS[k]) for k in ("K1b", "K5") for i in range(half(10, 100))]
